@@ -37,7 +37,7 @@ pub fn random_cfg(rng: &mut StdRng, faithful: bool) -> RunCfg {
 
 fn random_submit(rng: &mut StdRng) -> Step {
     let kind = pick(rng, &["pub", "pub", "pub", "pub", "sub", "unsub"]).to_string();
-    let variant = if rng.gen_bool(0.12) { pick(rng, &["wild", "shared", "subid", "badfilter", "props", "nolocalshared", "emptytopic", "wildtopic"]).to_string() } else { String::new() };
+    let variant = if rng.gen_bool(0.12) { pick(rng, &["wild", "shared", "sharedwild", "sharedwild", "subid", "badfilter", "props", "nolocalshared", "emptytopic", "wildtopic"]).to_string() } else { String::new() };
     Step::Submit {
         kind,
         qos: pick(rng, &[0, 1, 1, 2, 2]),
@@ -229,7 +229,7 @@ pub fn races(seed: u64) -> Script {
         }
         steps.push(Step::Service { cap: pick(&mut rng, &[7usize, 64, 4096, 4096]) });
         let mut tail = vec![Step::WriteDone {}, Step::Service { cap: 4096 }, Step::Advance { ms: pick(&mut rng, &[49, 50, 51, 99, 100, 101, 150]) },
-                            Step::Ack { which: "oldest".into(), how: "normal".into() }, Step::Ack { which: "newest".into(), how: "normal".into() }, Step::Service { cap: 4096 }, Step::WriteDone {}];
+                            Step::Ack { which: "oldest".into(), how: "normal".into() }, Step::Ack { which: "newest".into(), how: "normal".into() }, Step::Service { cap: 4096 }, Step::WriteDone {}, Step::NextSvc {}, Step::NextSvc {}];
         if rng.gen_bool(0.3) { tail.push(Step::Advance { ms: pick(&mut rng, &[1, 49, 50, 100]) }); tail.push(Step::Service { cap: 4096 }); }
         if rng.gen_bool(0.2) { tail.push(Step::Snapshot {}); }
         tail.shuffle(&mut rng);
